@@ -7,8 +7,10 @@ import (
 	"fmt"
 	"os"
 	"strings"
+	"time"
 
 	"github.com/ovh/kmip-go"
+	"github.com/ovh/kmip-go/payloads"
 	"github.com/ovh/kmip-go/ttlv"
 	mc "github.com/ovh/kmip-go/zz_verif/mc"
 	"verifharness/codecops"
@@ -166,7 +168,44 @@ func codecPairs(encName string, versions []kmip.ProtocolVersion) func() {
 				}
 			}
 		}
+		// encodings that fail half-way: the encoder panics inside a nested structure (negative interval, a Go value of an
+		// unsupported type in an attribute); the caller recovers, clears the encoder and goes on - the next result must not
+		// show that anything happened before
+		neg := -time.Second
+		poisons := []any{
+			&kmip.ResponseMessage{Header: kmip.ResponseHeader{ProtocolVersion: kmip.V1_4, BatchCount: 1}, BatchItem: []kmip.ResponseBatchItem{{Operation: kmip.OperationObtainLease,
+				ResponsePayload: &payloads.ObtainLeaseResponsePayload{UniqueIdentifier: "x", LeaseTime: -time.Second}}}},
+			&kmip.RequestMessage{Header: kmip.RequestHeader{ProtocolVersion: kmip.V1_4, BatchCount: 1}, BatchItem: []kmip.RequestBatchItem{{Operation: kmip.OperationReKey,
+				RequestPayload: &payloads.RekeyRequestPayload{UniqueIdentifier: "x", Offset: &neg}}}},
+			&kmip.RequestMessage{Header: kmip.RequestHeader{ProtocolVersion: kmip.V1_4, BatchCount: 1}, BatchItem: []kmip.RequestBatchItem{{Operation: kmip.OperationAddAttribute,
+				RequestPayload: &payloads.AddAttributeRequestPayload{UniqueIdentifier: "x", Attribute: kmip.Attribute{AttributeName: "x-bad", AttributeValue: make(chan int)}}}}},
+		}
+		failed := 0
+		for pi, p := range poisons {
+			for j := range ms {
+				enc := e.newEnc()
+				panicked := false
+				func() {
+					defer func() {
+						if recover() != nil {
+							panicked = true
+						}
+					}()
+					enc.Any(p)
+				}()
+				if panicked {
+					failed++
+				}
+				enc.Clear()
+				enc.Any(ms[j])
+				if got := string(enc.Bytes()); got != refs[j] {
+					mc.Failf("codec-result-depends-on-history: %s encoder reused after an encoding that failed half-way (poison %d, panicked=%v) and Clear: %s gives %s, a fresh encoder gives %s", e.name, pi, panicked, names[j], short(showDoc(got)), short(showDoc(refs[j])))
+					return
+				}
+			}
+		}
 		mc.Note("pairs", fmt.Sprint(pairs))
+		mc.Note("failed-encodings", fmt.Sprint(failed))
 	}
 }
 
